@@ -2,7 +2,7 @@
    MapProofs and WorldProofs; the Prop_Cxx.v files restate them and close them by [exact]. *)
 From stdpp Require Import gmap list.
 From Coq Require Import NArith Lia.
-From G Require Import Arith Monad Types Inv Raw RawProofs Map MapProofs IterProofs CloneProofs Cost EntryProofs EntryCost Ledger SetProofs Conserve Fill WorldProofs.
+From G Require Import Arith Monad Types Inv Raw RawProofs Map MapProofs IterProofs CloneProofs Cost EntryProofs EntryCost Ledger SetProofs Conserve Fill WorldProofs WorldLedger.
 Local Open Scope N_scope.
 
 (* every world reachable by a history of (so far: core) operations, from the empty world *)
@@ -738,13 +738,13 @@ Proof. apply nd_run, nd_map_equal. Qed.
    exactly once; nothing stays behind *)
 Lemma T_C06_drain j s out s' :
   lite s -> map_drain j false s = Ok out s' ->
-  exists l, out = map elem3 (firstn (N.to_nat j) l) /\ lite s' /\ elems (s_rt s') = [] /\
+  exists l s1, drain_order s = Ok l s1 /\ out = map elem3 (firstn (N.to_nat j) l) /\ lite s' /\ elems (s_rt s') = [] /\
     dks s' = rev (map ekid (skipn (N.to_nat j) l)) ++ dks s /\
     dvs s' = rev (map ev (skipn (N.to_nat j) l)) ++ dvs s.
 Proof. intros Hl E. pose proof (map_drain_ledger j s Hl) as H. unfold wpp in H. rewrite E in H. exact H. Qed.
 Lemma T_C06_into_iter j s out s' :
   lite s -> map_into_iter j s = Ok out s' ->
-  exists l, out = map elem3 (firstn (N.to_nat j) l) /\ lite s' /\ elems (s_rt s') = [] /\
+  exists l s1, drain_order s = Ok l s1 /\ out = map elem3 (firstn (N.to_nat j) l) /\ lite s' /\ elems (s_rt s') = [] /\
     dks s' = rev (map ekid (skipn (N.to_nat j) l)) ++ dks s /\
     dvs s' = rev (map ev (skipn (N.to_nat j) l)) ++ dvs s.
 Proof. intros Hl E. pose proof (map_into_iter_ledger j s Hl) as H. unfold wpp in H. rewrite E in H. exact H. Qed.
@@ -795,6 +795,21 @@ Lemma T_C06_clone_from c src s u s' :
 Proof.
   intros Hl Hs E. pose proof (rt_clone_from_ledger c src s Hl Hs) as H. unfold wpp in H. rewrite E in H. exact H.
 Qed.
+
+(* the conservation law over histories.  ledger_op: new, insert, get*, remove / remove_entry, clear,
+   reserve, try_reserve, shrink_to, iter* (with or without value updates), drain (dropped),
+   into_iter, retain, extend, drop.  k_in: the key objects the caller gives (insert, extend);
+   k_out: those handed back (remove_entry, drain and into_iter yields); wdks: the drop ledger;
+   wheld: the key objects stored in the maps of the world, in either table. *)
+Lemma T_C06_history_conserves_keys c w ts rs w' :
+  0 < cR c -> WInv c w -> ok_run c w ts rs w' ->
+  wdks w' ++ wheld w' ++ keys_out ts rs ≡ₚ keys_in ts ++ wdks w ++ wheld w.
+Proof. intros HR. apply history_conserves_keys. exact HR. Qed.
+
+(* once every map is gone, every key object ever given has been dropped or handed back, once *)
+Lemma T_C06_all_released c ts rs w' :
+  0 < cR c -> ok_run c world0 ts rs w' -> w_maps w' = ∅ -> wdks w' ++ keys_out ts rs ≡ₚ keys_in ts.
+Proof. intros HR. apply history_all_released. exact HR. Qed.
 
 (* the hypothesis [lite] holds in every reachable state: it is part of the invariant *)
 Lemma T_C06_lite_reachable R Esz s : Inv R Esz (s_rt s) -> lite s.
@@ -1201,6 +1216,18 @@ Proof.
   unfold ex_probe in H. destruct (run ex_cfg world0 ex_hist []) as [[w outs]|f]; [|discriminate].
   destruct (w_maps w !! 0) as [m|] eqn:E1; [|discriminate]. destruct (lo (m_rt m)) as [o|] eqn:E2; [|discriminate].
   injection H as H1 H2 H3. exists w, outs, m, o. split; [reflexivity|]. do 3 (split; [assumption|]). split; assumption.
+Qed.
+
+(* non-vacuity of the conservation law: create, 15 insertions (a resize in flight), an overwrite,
+   a removal of an old-table key, then drop: a lawful panic-free history from and to no map *)
+Definition ex_hist2 : list traced :=
+  ex_hist ++ [T (OInsert 0 12 99 5) 0 0 [] []; T (ORemove 0 true 13) 0 0 [] []; T (ODrop 0) 0 0 [] []].
+Example ex_ok_run : exists rs w', ok_run ex_cfg world0 ex_hist2 rs w' /\ w_maps w' = ∅.
+Proof.
+  assert (H : option_map (fun p => size (w_maps (snd p))) (run_okb ex_cfg world0 ex_hist2) = Some 0%nat) by (vm_compute; reflexivity).
+  destruct (run_okb ex_cfg world0 ex_hist2) as [[rs w']|] eqn:E; [|discriminate].
+  exists rs, w'. split; [apply run_okb_sound; exact E|]. cbn [option_map snd] in H. injection H as H.
+  apply map_size_empty_inv. exact H.
 Qed.
 
 Example ex_core : Forall core_op (map t_op ex_hist).
